@@ -109,7 +109,10 @@ def run_oracle(scn, tr):
             if cl:
                 evals += 1
                 xp = np.asarray(vt.inverse_transf(np.atleast_2d(us)), dtype=float).ravel()
-                if not np.allclose(cl[0]["x"], xp, rtol=1e-10, atol=1e-13):
+                # (tolerance on the scale of the coordinate: next to a bound x = m + w*u cancels, and re-rounding u to a mesh that
+                # is not a power of two moves it by an ulp)
+                sc = np.array([max(abs(c_["plb"]), abs(c_["pub"]), c_["pub"] - c_["plb"]) for c_ in scn["coords"]], dtype=float)
+                if not np.all(np.abs(cl[0]["x"] - xp) <= 1e-10 * np.abs(xp) + 1e-12 * sc):
                     v.append(viol("a:evaluated-point-not-the-proposal", f"{e['cls']}: search step {ph[1]} evaluated {cl[0]['x'].tolist()} but the "
                                   f"strategy proposed {xp.tolist()} (search mesh {e['search_mesh']})"))
                 labs.append("search:proposal-evaluated")
